@@ -334,3 +334,27 @@ def c11(run):
     run.add_traces(summ["evaluations"], r, "XtErrText text rules")
     run.assumptions += ["input-side = the mutated input fails for every streaming target; the serializer's reason = the message minus the synthetic 'translation failed[ at ...]' part",
                         "rmp-serde does not display the underlying I/O error, so the injected writer text is demanded only of the JSON, YAML and TOML targets"]
+
+
+def c07(run):
+    run.rule = ("(1) XtEncoding: TLC explores Utf8Encoder::read for every unit-class sequence of <= 4 units and every buffer size 1..6 and exports the reference "
+                "decoding of each sequence; the harness instantiates each sequence with boundary code units, both endiannesses, 8 read-size schedules and random "
+                "source chunkings on the real encoder and compares bytes and final status; non-trivial = not all-ASCII. (2) YAML texts in 8 encodings must translate "
+                "exactly like the UTF-8 text (XtObs!Agrees over a text key)")
+    for fam in ("16", "32"):
+        mc = run_tlc("MC_XtEncoding.tla", "MC_XtEncoding%s.cfg" % fam, workers=8)
+        check_vacuity(mc, ["Read"])
+        run.add_mc(mc, "XtEncoding family %s: NoFabrication, Complete, ErrorsReported for all unit sequences x all read schedules; DetectCorrect" % fam)
+    cases = []
+    for fam in ("16", "32"):
+        gen = run_tlc("MC_XtEncoding.tla", "Gen_XtEncoding%s.cfg" % fam, workers=8, coverage=False)
+        cases += tlc_printed(gen["out"], "IDEAL")
+    cases = sorted(set(cases))
+    path = write_lines(os.path.join(WORK, "cases_encoding_%s.ndjson" % run.tier), cases)
+    summ = run_xtv(["enc-replay", path, _q(run, 4, 40)], timeout=3000)
+    run.add_harness(summ, "every unit-class sequence x concrete boundary units x 2 endiannesses x 8 read-size schedules on the real re-encoder")
+    summ = run_xtv(["enc-sweep", _q(run, 97, 1)], timeout=6000)
+    run.add_harness(summ, "BMP scalars and surrogate pairs (stride %d; 1 = all 63 488 + 1 048 576) x 2 endiannesses x read sizes 1..6" % _q(run, 97, 1))
+    run.assumptions += OBS_ASSUME + ["BOM-less UTF-16/32 text starts with an ASCII character (YAML 1.2 section 5.2); otherwise detection is undefined by the YAML specification"]
+    obs_stage(run, "encodings", _q(run, 8, 150), ["C02"], "YAML text in UTF-8/16/32 (LE/BE, +-BOM; ASCII-only and not) x slice + 6 read schedules incl. cuts inside code units x explicit/detected x 3 targets: same verdict and bytes as the UTF-8 text")
+    run.exhaustive = True
